@@ -92,8 +92,8 @@ pub fn all() -> Vec<PropDef> {
     v.push(PropDef {
         miri: None,
         id: "C03", level: "exploration", driver: "D1 caller-schedule simulator (both sync parsers, hostile input)",
-        scens: vec![s("request_parser", d1c03::c03_req, 180_000, 6_000_000), s("stream_parser", d1c03::c03_stream, 120_000, 4_000_000)],
-        rule: "each run = one hostile byte string (uniformly random, or valid traffic under 1..3 structured mutations: version/type/length/padding/id flips, truncation, splices, name-value lengths up to 2^31-1, BeginRequest with wrong length / id 0 / unknown role) run under 3 (request parser) or 2 (stream parser) independent schedules with every call under catch_unwind (debug assertions and overflow checks on), repeated calls after the final state and conversions on clones; outcome compared across schedules and with the reference models",
+        scens: vec![s("request_parser", d1c03::c03_req, 180_000, 6_000_000), s("stream_parser", d1c03::c03_stream, 120_000, 4_000_000), s("conversion_chain", d1stream::c05, 60_000, 2_000_000)],
+        rule: "each run = one hostile byte string (uniformly random, or valid traffic under 1..3 structured mutations: version/type/length/padding/id flips, truncation, splices, name-value lengths up to 2^31-1, BeginRequest with wrong length / id 0 / unknown role) run under 3 (request parser) or 2 (stream parser) independent schedules with every call under catch_unwind (debug assertions and overflow checks on), repeated calls after the final state and conversions on clones; outcome compared across schedules and with the reference models; conversion_chain: the C05 conversion chain (buffer bookkeeping across request parser -> stream parser -> request parser under seeded schedules, unread remainders compared with the fed bytes)",
         assumptions: vec!["StuckOnInput / a full buffer without progress is accepted only when some Params/GetValues record announces more content than the effective buffer (over-approximation of the largest unit the parser must hold contiguously)"],
         real: REAL_SYNC.to_vec(), stub: STUB_SYNC.to_vec(),
     });
